@@ -1,5 +1,6 @@
 import Zc.Proofs.PostState
 import Zc.Proofs.Listeners
+import Zc.Proofs.Reentrant
 import Zc.Props.C05
 /-! # C06 — response ingestion and the record-update listener contract
 
@@ -131,7 +132,10 @@ theorem C06_calls (evs : List Event) (now : Ms) (recs : List Rec) :
       cases hrm : removeAll (Cache.ops lower)
           (addAll (Cache.ops lower) (addAll (Cache.ops lower) (ingestPre lower (Cache.ops lower) C now recs).cache
             (ingestPre lower (Cache.ops lower) C now recs).addrAdds).1 (ingestPre lower (Cache.ops lower) C now recs).otherAdds).1
-          (ingestPre lower (Cache.ops lower) C now recs).removes with
+          (Zc.keptRemoves (Cache.ops lower)
+            (addAll (Cache.ops lower) (addAll (Cache.ops lower) (ingestPre lower (Cache.ops lower) C now recs).cache
+              (ingestPre lower (Cache.ops lower) C now recs).addrAdds).1 (ingestPre lower (Cache.ops lower) C now recs).otherAdds).1
+            (ingestPre lower (Cache.ops lower) C now recs).removes) with
       | error e => rw [hrm] at hc; cases hc
       | ok c4 =>
         rw [hrm] at hc
@@ -148,7 +152,10 @@ theorem C06_calls (evs : List Event) (now : Ms) (recs : List Rec) :
         cases hrm : removeAll (Cache.ops lower)
             (addAll (Cache.ops lower) (addAll (Cache.ops lower) (ingestPre lower (Cache.ops lower) C now recs).cache
               (ingestPre lower (Cache.ops lower) C now recs).addrAdds).1 (ingestPre lower (Cache.ops lower) C now recs).otherAdds).1
-            (ingestPre lower (Cache.ops lower) C now recs).removes with
+            (Zc.keptRemoves (Cache.ops lower)
+              (addAll (Cache.ops lower) (addAll (Cache.ops lower) (ingestPre lower (Cache.ops lower) C now recs).cache
+                (ingestPre lower (Cache.ops lower) C now recs).addrAdds).1 (ingestPre lower (Cache.ops lower) C now recs).otherAdds).1
+              (ingestPre lower (Cache.ops lower) C now recs).removes) with
         | error e => rw [hrm] at hc; cases hc
         | ok c4 =>
           rw [hrm] at hc
@@ -196,7 +203,10 @@ theorem C06_calls (evs : List Event) (now : Ms) (recs : List Rec) :
           cases hrm : removeAll (Flat.ops lower)
               (addAll (Flat.ops lower) (addAll (Flat.ops lower) (ingestPre lower (Flat.ops lower) S now recs).cache
                 (ingestPre lower (Flat.ops lower) S now recs).addrAdds).1 (ingestPre lower (Flat.ops lower) S now recs).otherAdds).1
-              (ingestPre lower (Flat.ops lower) S now recs).removes with
+              (Zc.keptRemoves (Flat.ops lower)
+                (addAll (Flat.ops lower) (addAll (Flat.ops lower) (ingestPre lower (Flat.ops lower) S now recs).cache
+                  (ingestPre lower (Flat.ops lower) S now recs).addrAdds).1 (ingestPre lower (Flat.ops lower) S now recs).otherAdds).1
+                (ingestPre lower (Flat.ops lower) S now recs).removes) with
           | error e => rw [hrm] at ho; cases ho
           | ok c4 =>
             rw [hrm] at ho
@@ -357,6 +367,227 @@ theorem C06_delivery_out (order : List Nat → List Nat) (c : Cache) (ls : List 
       split at hd
       · cases hd; rfl
       · cases hd; rfl
+
+
+/-! ### callbacks that re-enter the record manager (D24)
+
+`async_add_listener(listener, question)` called **from inside a callback**: since the D23 repair it purges the expired records at
+its own reading of the clock — with the purge's own `async_updates` / `async_updates_complete(False)` rounds nested inside the
+callback — before it adds the listener and replays the cache to it.  In the first round of a datagram that changes the cache
+between the computation of the datagram's work lists and their application; before the D24 repair a goodbye for a record that had
+run out unpurged then raised `KeyError` out of `async_updates_from_response`.  `deliverR` (`Zc/Model/Reentrant.lean`) is
+`async_updates_from_response` with callbacks scripted by `react depth phase listener : List CbAct` (`add`, `remove`, `addQ` with
+its clock reading and questions) for every nesting depth; the theorems below hold for every script, every iteration order
+`order`, every nesting bound `fuel`, after every history. -/
+
+/-- every history of datagrams and purges leaves a cache that is `Cache.Sound` (it refines a duplicate-free flat store) -/
+theorem cacheAfter_sound (evs : List Event) : Cache.Sound lower (cacheAfter lower evs) := by
+  have h := (Refines.empty lower).runEvents (by simp [Flat.WF]) evs
+  exact ⟨_, h.1, h.2⟩
+
+section
+variable (order : List Nat → List Nat) (react : Nat → Nat → Nat → List CbAct) (fuel : Nat)
+
+/-- **C06 (no exception escapes, whatever the callbacks do; D24 repaired).**  On a sound cache — in particular after any history —
+a datagram is delivered without raising although callbacks add and remove listeners and register listeners with a question
+(purge, nested rounds, replay) to any nesting depth; and the cache it leaves is sound again, so the statement covers histories
+that contain such deliveries. -/
+theorem C06_reentrant_never_raises {c : Cache} (hs : Cache.Sound lower c) (ls : List Nat) (now : Ms) (recs : List Rec) :
+    (deliverR lower order react fuel c ls now recs).err = none
+    ∧ Cache.Sound lower (deliverR lower order react fuel c ls now recs).cache := by
+  obtain ⟨_, _, h1, h2, _⟩ := deliverR_post (lower := lower) order react fuel hs ls now recs
+  exact ⟨h1, h2⟩
+
+/-- **C06 (post-state with re-entrant callbacks).**  After any history, for a datagram `recs` at `now`, whatever the callbacks do:
+nothing raises, and for every identity the cache ends up with the post-state of the statement (`PostState`: withdrawn, refreshed
+with arrival time and floored TTL, flush-marked, stored, or untouched — `C06_post_state`) **unless** that record's TTL had fully
+elapsed at the clock reading of a callback that registered a listener with a question, in which case it is gone (purged, D23): a
+reading of either round for a record that was cached before the datagram, a reading of the second round for a record the datagram
+added.  Without such callbacks (`reads1 = reads2 = []`) this is `C06_post_state`. -/
+theorem C06_post_state_reentrant (evs : List Event) (ls : List Nat) (now : Ms) (recs : List Rec) :
+    (deliverR lower order react fuel (cacheAfter lower evs) ls now recs).err = none
+    ∧ ∀ q, ∃ after0, PostState lower now recs q ((cacheAfter lower evs).getUnique lower q) after0
+        ∧ (deliverR lower order react fuel (cacheAfter lower evs) ls now recs).cache.getUnique lower q
+            = after0.filter (aliveAt
+                (if ((cacheAfter lower evs).getUnique lower q).isSome
+                 then (deliverR lower order react fuel (cacheAfter lower evs) ls now recs).reads1
+                        ++ (deliverR lower order react fuel (cacheAfter lower evs) ls now recs).reads2
+                 else (deliverR lower order react fuel (cacheAfter lower evs) ls now recs).reads2)) := by
+  obtain ⟨out, hout, herr, _, hq⟩ := deliverR_post (lower := lower) order react fuel (cacheAfter_sound lower evs) ls now recs
+  obtain ⟨out', hout', hpost⟩ := C06_post_state lower evs now recs
+  have : out' = out := by rw [hout] at hout'; exact (Except.ok.inj hout').symm
+  subst this
+  exact ⟨herr, fun q => ⟨_, hpost q, hq q⟩⟩
+
+/-- **C06 (who is called, with re-entrant callbacks).**  On a sound cache: if the datagram has no updates nobody is called; else
+round 1 (`async_update_records`) enters the callback of exactly the listeners registered at arrival, in the iteration order, round 2
+(`async_update_records_complete`) of exactly the listeners registered when round 1 is over — whatever the callbacks of either round
+do, including registering listeners with a question, whose purge rounds and replays are *nested* calls and not part of these two
+rounds.  Neither round raises. -/
+theorem C06_listeners_reentrant {c : Cache} (hs : Cache.Sound lower c) (ls : List Nat) (now : Ms) (recs : List Rec) :
+    match (deliverR lower order react fuel c ls now recs).r1, (deliverR lower order react fuel c ls now recs).r2 with
+    | none, none => (ingestPre lower (Cache.ops lower) c now recs).updates.isEmpty = true
+        ∧ (deliverR lower order react fuel c ls now recs).listeners = ls
+    | some r1, some r2 =>
+        (ingestPre lower (Cache.ops lower) c now recs).updates.isEmpty = false
+        ∧ r1.2.map Prod.fst = order ls ∧ r2.2.map Prod.fst = order r1.1.live
+        ∧ r1.1.err = none ∧ r2.1.err = none
+        ∧ (deliverR lower order react fuel c ls now recs).listeners = r2.1.live
+    | _, _ => False := by
+  obtain ⟨m1, m2⟩ := deliverR_shape (lower := lower) order react fuel hs ls now recs _ rfl
+  cases he : (ingestPre lower (Cache.ops lower) c now recs).updates.isEmpty with
+  | true =>
+    obtain ⟨f, _, _, _, hd⟩ := m1 he
+    rw [hd]; exact ⟨rfl, rfl⟩
+  | false =>
+    obtain ⟨r1, f, r2, _, _, _, hd, e1, c1, _, _, _, e2, c2, _⟩ := m2 he
+    rw [hd]; exact ⟨rfl, c1, c2, e1.err, e2.err, rfl⟩
+
+/-- **C06 (exactly once), the sentence with re-entrant callbacks**: when the iteration order is a permutation of the set, every
+listener registered at the start of a round of the datagram is called exactly once in it, nobody else is -/
+theorem C06_listeners_full_reentrant {c : Cache} (hs : Cache.Sound lower c) (ls : List Nat) (hnodup : ls.Nodup)
+    (hperm : ∀ l : List Nat, (order l).Perm l) (now : Ms) (recs : List Rec)
+    (r1 r2 : RSt × List (Nat × Cache)) (h1 : (deliverR lower order react fuel c ls now recs).r1 = some r1)
+    (h2 : (deliverR lower order react fuel c ls now recs).r2 = some r2) (l : Nat) :
+    (r1.2.map Prod.fst).count l = (if l ∈ ls then 1 else 0)
+    ∧ (r2.2.map Prod.fst).count l = (if l ∈ r1.1.live then 1 else 0)
+    ∧ r1.1.live.Nodup ∧ r2.1.live.Nodup := by
+  obtain ⟨m1, m2⟩ := deliverR_shape (lower := lower) order react fuel hs ls now recs _ rfl
+  cases he : (ingestPre lower (Cache.ops lower) c now recs).updates.isEmpty with
+  | true =>
+    obtain ⟨f, _, _, _, hd⟩ := m1 he
+    rw [hd] at h1; cases h1
+  | false =>
+    obtain ⟨r1', f, r2', _, _, _, hd, e1, c1, _, _, _, e2, c2, _⟩ := m2 he
+    rw [hd] at h1 h2
+    simp only [Option.some.injEq] at h1 h2
+    subst h1; subst h2
+    -- the live set stays a set
+    have live_nodup : ∀ {st st' : RSt}, Ext lower st st' → st.live.Nodup → st'.live.Nodup := by
+      intro st st' e hn
+      obtain ⟨tr, _, hl⟩ := e.live
+      rw [hl, ← runActs_eq]
+      exact runActs_nodup _ hn _
+    have hn1 : r1'.1.live.Nodup := live_nodup e1 hnodup
+    have hn2 : r2'.1.live.Nodup := live_nodup e2 hn1
+    refine ⟨?_, ?_, hn1, hn2⟩
+    · rw [c1, (hperm ls).count_eq]
+      exact List.Nodup.count hnodup
+    · rw [c2, (hperm _).count_eq]
+      exact List.Nodup.count hn1
+
+/-- **C06 (snapshot semantics of a round, with re-entrant callbacks).**  A round at any nesting depth, started on a sound cache,
+with callbacks that do anything (to any depth):
+* it does not raise;
+* a listener that is not in the snapshot (the listener set when the round starts) is not called in this round, even if a callback
+  adds it — with or without a question;
+* a listener of the snapshot is called even if a callback removes it;
+* afterwards the listener set is the old one with every executed change applied in execution order (`tr`; registering with a
+  question counts as an add, the changes made inside nested rounds and replays included): a listener some callback added and none
+  removed is registered — it is called from the next round on; one some callback removed and none added is not; one nobody touched
+  is registered iff it was. -/
+theorem C06_snapshot_semantics_reentrant (depth phase : Nat) {st : RSt} (h : st.err = none) (hs : Cache.Sound lower st.cache) (x : Nat) :
+    (roundR RmCfg.code order (cbBody lower RmCfg.code order react fuel) depth phase st).1.err = none
+    ∧ (x ∉ order st.live → x ∉ (roundR RmCfg.code order (cbBody lower RmCfg.code order react fuel) depth phase st).2.map Prod.fst)
+    ∧ (x ∈ order st.live → x ∈ (roundR RmCfg.code order (cbBody lower RmCfg.code order react fuel) depth phase st).2.map Prod.fst)
+    ∧ ∃ tr, (roundR RmCfg.code order (cbBody lower RmCfg.code order react fuel) depth phase st).1.trace = st.trace ++ tr
+        ∧ (ListenerAct.add x ∈ tr → ListenerAct.remove x ∉ tr →
+            x ∈ (roundR RmCfg.code order (cbBody lower RmCfg.code order react fuel) depth phase st).1.live)
+        ∧ (ListenerAct.remove x ∈ tr → ListenerAct.add x ∉ tr →
+            x ∉ (roundR RmCfg.code order (cbBody lower RmCfg.code order react fuel) depth phase st).1.live)
+        ∧ (ListenerAct.add x ∉ tr → ListenerAct.remove x ∉ tr →
+            (x ∈ (roundR RmCfg.code order (cbBody lower RmCfg.code order react fuel) depth phase st).1.live ↔ x ∈ st.live)) := by
+  rw [RmCfg.code_eq]
+  obtain ⟨e, hc, _⟩ := roundR_spec (lower := lower) order (cbBody_ok (lower := lower) order react fuel) depth phase h hs
+  obtain ⟨tr, htr, hl⟩ := e.live
+  have hok : (actsFrom true tr (st.live, none)).2 = none := actsFrom_true_ok _ _ rfl
+  refine ⟨e.err, by rw [hc]; exact id, by rw [hc]; exact id, tr, htr, ?_, ?_, ?_⟩
+  · intro ha hr; rw [hl]; exact actsFrom_added tr _ x ha hr hok
+  · intro hr ha; rw [hl]; exact actsFrom_removed tr _ x hr ha hok
+  · intro ha hr
+    rw [hl]
+    constructor
+    · intro hx
+      by_cases hin : x ∈ st.live
+      · exact hin
+      · exact absurd hx (actsFrom_absent tr (st.live, none) x hin ha)
+    · intro hx; exact actsFrom_persist tr (st.live, none) x hx hr
+
+/-- **C06 (what the listeners of the two rounds find in the cache, with re-entrant callbacks).**  The listeners of round 1 are all
+handed the update list of `C06_calls` (`livePairs` on the cache `pre.cache` = the `c1` of `C06_calls`: no new record added, no
+withdrawn record removed, refreshed TTLs and flush marks visible); the cache a listener of round 1 finds is `c1` minus the records
+whose TTL had fully elapsed at a clock reading taken *earlier in the round* by a callback that registered a listener with a question
+(`ts'`, an initial segment of the round's readings); a listener of round 2 finds the cache after the adds and removes (`fin`) minus,
+likewise, what ran out at an earlier reading of round 2. -/
+theorem C06_calls_reentrant {c : Cache} (hs : Cache.Sound lower c) (ls : List Nat) (now : Ms) (recs : List Rec) :
+    (deliverR lower order react fuel c ls now recs).pre = ingestPre lower (Cache.ops lower) c now recs
+    ∧ (∀ r1, (deliverR lower order react fuel c ls now recs).r1 = some r1 → ∀ lc ∈ r1.2,
+        ∃ ts' ts'', (deliverR lower order react fuel c ls now recs).reads1 = ts' ++ ts''
+          ∧ ∀ q, lc.2.getUnique lower q
+              = (((deliverR lower order react fuel c ls now recs).pre.cache).getUnique lower q).filter (aliveAt ts'))
+    ∧ (∀ r2, (deliverR lower order react fuel c ls now recs).r2 = some r2 → ∀ lc ∈ r2.2,
+        ∃ f ts' ts'', (deliverR lower order react fuel c ls now recs).fin = some f
+          ∧ (deliverR lower order react fuel c ls now recs).reads2 = ts' ++ ts''
+          ∧ ∀ q, lc.2.getUnique lower q = (f.1.getUnique lower q).filter (aliveAt ts')) := by
+  obtain ⟨m1, m2⟩ := deliverR_shape (lower := lower) order react fuel hs ls now recs _ rfl
+  cases he : (ingestPre lower (Cache.ops lower) c now recs).updates.isEmpty with
+  | true =>
+    obtain ⟨f, _, _, _, hd⟩ := m1 he
+    rw [hd]
+    refine ⟨rfl, ?_, ?_⟩
+    · intro r1 h; cases h
+    · intro r2 h; cases h
+  | false =>
+    obtain ⟨r1, f, r2, _, _, _, hd, _, _, s1, _, _, _, _, s2⟩ := m2 he
+    rw [hd]
+    refine ⟨rfl, fun r1' h lc hlc => ?_, fun r2' h lc hlc => ?_⟩
+    · simp only [Option.some.injEq] at h; subst h
+      obtain ⟨ts', ts'', hr, hq⟩ := (s1 lc hlc).spec
+      exact ⟨ts', ts'', by simpa [DeliveryR.reads1] using hr, hq⟩
+    · simp only [Option.some.injEq] at h; subst h
+      obtain ⟨ts', ts'', hr, hq⟩ := (s2 lc hlc).spec
+      exact ⟨f, ts', ts'', rfl, by simpa [DeliveryR.reads2] using hr, hq⟩
+
+end
+
+
+/-- **D24, before the repair**: listener 1 is registered; a TXT record with TTL 1 s, cached at 1 000 000 ms, has run out — unpurged — when
+its goodbye arrives at 1 003 000 ms.  Inside its update callback listener 1 registers listener 2 with a question; that call purges the
+TXT.  Without the filter (`keepTest` constantly `true`) `async_remove_records(removes)` raised `KeyError` out of
+`async_updates_from_response` and no completion round ran; with the repair the same datagram is delivered completely: both rounds
+run (listener 2, added in round 1, gets the complete call), the record is gone, nothing raises. -/
+theorem C06_reentrant_purge_aborted_ingestion_before_fix :
+    let txt : Rec := ⟨"a._x._tcp.local.", 16, 1, false, 1, 0, .txt []⟩
+    let q : Question := ⟨"_other._tcp.local.", 12, 1, false⟩
+    let react : Nat → Nat → Nat → List CbAct := fun d p l => if d = 0 ∧ p = 1 ∧ l = 1 then [.addQ 2 1003000 [q]] else []
+    let c := cacheAfter id [.datagram 1000000 [txt]]
+    let before := deliverRWith id { RmCfg.ok with keepTest := fun _ => true } id react 2 c [1] 1003000 [{ txt with ttl := 0 }]
+    let after := deliverRWith id RmCfg.ok id react 2 c [1] 1003000 [{ txt with ttl := 0 }]
+    (c.getUnique id txt).isSome = true
+    ∧ before.err = some .keyError ∧ before.r2.isNone = true ∧ before.reads1 = [1003000]
+    ∧ after.err = none ∧ after.r2.map (fun r => r.2.map Prod.fst) = some [1, 2] ∧ after.reads1 = [1003000]
+    ∧ after.cache.getUnique id txt = none := by
+  decide
+
+/-- `Cache.Sound` is met by a non-empty cache, and a re-entrant purge really happens in the theorems' scope: the delivery of the
+witness above on the repaired code has one clock reading in round 1 and purges the record the datagram withdraws -/
+example :
+    let txt : Rec := ⟨"a._x._tcp.local.", 16, 1, false, 1, 0, .txt []⟩
+    Cache.Sound id (cacheAfter id [.datagram 1000000 [txt]]) ∧ ((cacheAfter id [.datagram 1000000 [txt]]).getUnique id txt).isSome = true :=
+  ⟨cacheAfter_sound id _, by decide⟩
+
+/-- a record the datagram *adds* survives a round-1 purge at a reading at which it would have run out, and is purged by a round-2
+reading: a TTL-1 address arrives at 5000; a round-1 callback registers a listener at clock 6000 (the address is not cached yet: kept),
+a round-2 callback at clock 6000 (now it is cached and expired: purged) -/
+example :
+    let a1 : Rec := ⟨"h.local.", 1, 1, false, 1, 0, .addr [10, 0, 0, 1] none⟩
+    let q : Question := ⟨"h.local.", 1, 1, false⟩
+    let r1only : Nat → Nat → Nat → List CbAct := fun d p l => if d = 0 ∧ p = 1 ∧ l = 1 then [.addQ 2 6000 [q]] else []
+    let r2too : Nat → Nat → Nat → List CbAct := fun d _ l => if d = 0 ∧ l = 1 then [.addQ 2 6000 [q]] else []
+    ((deliverR id id r1only 2 {} [1] 5000 [a1]).cache.getUnique id a1).isSome = true
+    ∧ (deliverR id id r2too 2 {} [1] 5000 [a1]).cache.getUnique id a1 = none
+    ∧ (deliverR id id r2too 2 {} [1] 5000 [a1]).err = none := by
+  decide
 
 /-! non-vacuity -/
 
